@@ -217,6 +217,32 @@ def check_config(ci):
                     for sig, msg in acquire_case(confs, addrs, expect, ci2, ei, pol_index, src, dst, sp, dp, pr, pre):
                         probs.append(('acquire:%s:%s' % (pre, sig), msg + ' [conn %d entry %d flow %s:%d -> %s:%d proto %d]' % (
                             ci2, ei, src, sp, dst, dp, pr)))
+    # --- a second ACQUIRE for the connection while its IKE_SA is still being set up: the IKE_SA must be re-used
+    for stage in (0, 1, 2):
+        n_eval += 1
+        w4 = World(confs, addrs)
+        a4 = w4.endpoints['A']
+        w4.sent_log = []
+        c0 = expect[0]
+        w4.step(('acquire', 'A', 0, 0))
+        for _ in range(stage):
+            if w4.net:
+                w4.step(('deliver', w4.net[0].id))
+        second_entry = len(c0['entries']) - 1
+        w4.step(('acquire', 'A', 0, second_entry, 7, 0) if second_entry == 0 else ('acquire', 'A', 0, second_entry))
+        w4.deliver_all()
+        inits = [d for d in w4.sent_log if d.sender == 'A' and d.data[18] == 34 and not d.data[19] & 0x20]
+        spis = {d.data[0:8] for d in inits}
+        if len(spis) > 1:
+            probs.append(('acquire:negotiating:second-ike-sa', 'a second ACQUIRE while the IKE_SA was being set up (after %d '
+                          'deliveries) opened another IKE_SA instead of re-using it (%d IKE_SA_INIT SPIs)' % (stage, len(spis))))
+        peers = [s for s in a4.controller.ike_sas if s.peer_addr == c0['peer'] and s.my_addr == c0['my']]
+        if len(peers) != 1:
+            probs.append(('acquire:negotiating:ike-sa-count', 'after two ACQUIREs for one connection A holds %d IKE_SAs with '
+                          'that peer' % len(peers)))
+        elif len(peers[0].child_sas) != 2:
+            probs.append(('acquire:negotiating:child-count', 'after two ACQUIREs for one connection %d CHILD_SAs exist '
+                          '(the queued one must be negotiated on the same IKE_SA)' % len(peers[0].child_sas)))
     # --- ACQUIRE for an unknown index
     for idx in (0x7ffff1, 1, (77 << 3) | 1):
         if any(p == idx for p in out_pols.values()):
@@ -232,9 +258,15 @@ def check_config(ci):
         elif w2.step_emitted or len(w2.endpoints['A'].kernel.log) != nlog:
             probs.append(('acquire-unknown-index:effect', 'ACQUIRE with unknown policy index %d caused %d datagrams / %d '
                           'netlink requests' % (idx, len(w2.step_emitted), len(w2.endpoints['A'].kernel.log) - nlog)))
-    # --- shutdown
+    # --- shutdown (with SAs of every entry installed)
     w3 = w.fork()
     a3 = w3.endpoints['A']
+    for ci3, c3 in enumerate(expect):
+        for ei3 in range(len(c3['entries'])):
+            w3.step(('acquire', 'A', ci3, ei3))
+            w3.deliver_all()
+    if not a3.kernel.sad:
+        probs.append(('shutdown:precondition', 'no SA could be installed before the shutdown test'))
     w3.step(('sweep', 'A'))           # main_loop must have run once (it creates the control socket)
     w3._enter(a3)
     try:
@@ -348,7 +380,7 @@ def acquire_case(confs, addrs, expect, ci, ei, pol_index, src, dst, sport, dport
 
 def restart_cases():
     fam, spec = 4, [('a', 'b', [entry_spec(4, 5, 'host', 0, 'tcp', 'transport', 'esp'),
-                                entry_spec(4, 9, 'net', 23, 'tcp', 'tunnel', 'esp')])]
+                                entry_spec(4, 9, 'net', 23, 'tcp', 'tunnel', 'ah')])]
     confs, addrs, expect = build_confs(fam, spec)
     w = World(confs, addrs)
     events = [('acquire', 'A', 0, 0), 'drain', ('acquire', 'A', 0, 1), 'drain', ('rekey',), 'drain']
